@@ -672,7 +672,7 @@ def run(ctx):
     ctx.cov["negative_control_kinds"] = {k: len(v) for k, v in sorted(by_name.items())}
     need = {"chunk-drop", "chunk-dup", "chunk-swap", "index-restart", "readback-drop", "readback-dup",
             "readback-swap", "inner-lost"}
-    if need - set(by_name):
+    if need - set(by_name) and not (ctx.violations or ctx.known_hits):
         raise MachineryError("negative control kinds missing: %s" % sorted(need - set(by_name)))
     phase["negative_controls"] = round(time.time() - t0, 1)
     ctx.cov["unobservable_requests_skipped"] = n_unobs
